@@ -464,6 +464,16 @@ class SimSocket:
         if self.rx_type == "memoryview_slice":
             # a view into the middle of a larger immutable object (zero-copy receive adapters slice one big buffer)
             return memoryview(b"\x00\x07\x01" + data + b"\x00\x00")[3 : 3 + len(data)]
+        if self.rx_type == "memoryview_wide" and data and len(data) % 2 == 0:
+            # a buffer whose items are wider than a byte: len() counts items, not bytes
+            return memoryview(bytearray(data)).cast("H")
+        if self.rx_type == "memoryview_strided" and data:
+            # a non-contiguous view: every other byte of a buffer twice the size
+            wide = bytearray(len(data) * 2)
+            wide[::2] = data
+            return memoryview(wide)[::2]
+        if self.rx_type in ("memoryview_wide", "memoryview_strided"):
+            return memoryview(data)
         if self.rx_type in ("bytearray_reused", "memoryview_reused"):
             # a caller that owns one receive buffer and refills it for every read (recv_into style): whatever the previous
             # read left there is overwritten now, so anything the protocol kept by reference instead of by copy changes
